@@ -87,6 +87,36 @@ def run(tier):
                          {"relation": "get_location = location_spec", "body": cps(s), "pos": pos,
                           "impl": got, "model": want})
     ck.count("get_location_cases", len(cases))
+    # the same Source OBJECT queried repeatedly, in ascending, descending and shuffled order: the answer for an
+    # offset must not depend on earlier lookups (expected = the model's answers above)
+    from graphql.language import Source as _Source
+    want_of = {}
+    for (s_, pos), want in zip(meta, res):
+        want_of.setdefault(s_, {})[pos] = want
+    nhist = 0
+    for s_ in strs[::(7 if tier == "quick" else 3)]:
+        offs_ = list(range(len(s_) + 1))
+        shuffled = offs_[:]
+        ck.rng.shuffle(shuffled)
+        for order_name, order in (("ascending", offs_), ("descending", offs_[::-1]), ("shuffled", shuffled),
+                                  ("each-twice", [o for o in offs_ for _ in (0, 1)])):
+            src_obj = _Source(s_)
+            for pos in order:
+                try:
+                    loc = src_obj.get_location(pos)
+                    got = [loc.line, loc.column]
+                except Exception as e:  # noqa: BLE001
+                    got = ["raised", type(e).__name__]
+                nhist += 1
+                if got != want_of[s_][pos]:
+                    ck.violation(f"get_location-history:{s_!r}:{order_name}:{pos}",
+                                 f"get_location({pos}) on a Source({s_!r}) that answered earlier lookups ({order_name} order) = {got}, "
+                                 f"specification says {want_of[s_][pos]}",
+                                 {"relation": "get_location is independent of earlier lookups on the same Source", "body": cps(s_),
+                                  "pos": pos, "order": [int(x) for x in order], "impl": got, "model": want_of[s_][pos]})
+                    break
+    ck.evaluations += nhist
+    ck.count("get_location_history_lookups", nhist)
     ck.samples.append({"body": strs[len(strs) // 2], "offsets": "all"})
     ck.exhaustive = True
 
@@ -240,6 +270,56 @@ def run(tier):
                          f"{kind} error in {d!r} located at {got} (node start {start}), true location {want}",
                          {"relation": f"{kind} error location = get_location(node start)", "body": cps(d),
                           "pos": start, "impl": got, "model": want})
+    # GraphQLError built from ANY node of a parsed document (the Document node included, whose Location starts at the
+    # SOF token) must carry get_location(node.loc.start)
+    from graphql import GraphQLError as _GE
+    from graphql.language import Node as _Node
+    ncases, nmeta = [], []
+    ndocs = ["{ a }", "\n\n  { a\r\n b }", "# c\r{ o { a } }", "query Q($v: Int = 1) @d { a(x: [1, {k: $v}]) ...F }\nfragment F on T {\r a }",
+             '"""d"""\ntype T implements I & J @x { f(a: Int = 2): [T!]! }\r\nextend schema { query: T }']
+    for d in ndocs:
+        try:
+            ast = parse(d)
+        except GraphQLError:
+            continue
+        stack, nodes_ = [ast], []
+        while stack:
+            n_ = stack.pop()
+            nodes_.append(n_)
+            for k in n_.keys:
+                v = getattr(n_, k, None)
+                if isinstance(v, _Node):
+                    stack.append(v)
+                elif isinstance(v, (list, tuple)):
+                    stack.extend(x for x in v if isinstance(x, _Node))
+        for n_ in nodes_:
+            if n_.loc is None:
+                continue
+            for nodes_arg in ([n_], [ast, n_]):
+                try:
+                    e = _GE("m", nodes_arg)
+                    got = [[l.line, l.column] for l in (e.locations or [])]
+                    fm = e.formatted.get("locations")
+                    if fm != [{"line": a, "column": b} for a, b in got]:
+                        got = ["formatted differs", fm]
+                except Exception as ex:  # noqa: BLE001
+                    got = ["raised", type(ex).__name__]
+                for x in nodes_arg:
+                    ncases.append([1, x.loc.start] + cps(d))
+                nmeta.append((d, [x.kind for x in nodes_arg], [x.loc.start for x in nodes_arg], got, len(nodes_arg)))
+    nres = m.run_batch(ncases)
+    i_ = 0
+    for d, kinds, starts, got, k_ in nmeta:
+        want = nres[i_:i_ + k_]
+        i_ += k_
+        ck.evaluations += 1
+        ck.note_case(("node-error", d, tuple(kinds), tuple(starts)), nontrivial=True)
+        if got != want:
+            ck.violation(f"node-error:{d!r}:{kinds}:{starts}",
+                         f"GraphQLError built from node(s) {kinds} starting at {starts} of {d!r} carries locations {got}, true locations {want}",
+                         {"relation": "error location = get_location(node start)", "body": cps(d), "pos": starts[-1],
+                          "impl": got, "model": want})
+    ck.count("node_error_cases", len(nmeta))
     ck.count("validation_execution_errors", len(vcases))
     ck.samples.append({"document": docs[5]})
 
